@@ -85,6 +85,14 @@ class Ephem(Speaker):
 
         return self._interp
 
+    def _reset_interp(self):
+        """The interpolator works on its own copy of the points, it has to be
+        rebuilt when they are converted to another form or frame
+        """
+        if hasattr(self, "_interp"):
+            self._method, self._order = self._interp.method, self._interp.order
+            del self._interp
+
     @property
     def method(self):
         if hasattr(self, "_interp"):
@@ -131,6 +139,7 @@ class Ephem(Speaker):
         """Change the frames of all points"""
         for orb in self:
             orb.frame = frame
+        self._reset_interp()
 
     @property
     def form(self):  # pragma: no cover
@@ -142,6 +151,7 @@ class Ephem(Speaker):
         """Change the form of all points"""
         for orb in self:
             orb.form = form
+        self._reset_interp()
 
     def interpolate(self, date):
         """Interpolate data at a given date
